@@ -27,7 +27,9 @@ IRRELEVANT_LABELS = ["www", "www2", "www3", "www9", "m", "mobile"]
 AMP_LABELS = ["amp"]
 LOOKALIKE_LABELS = ["wwww", "www10", "ww", "mm", "mobiles", "forum-m", "m-site", "ampere", "amp2", "my-www", "wwwx", "xm",
                     # not ASCII: a non-ASCII digit after 'www' (raw and as A-label), letters that only case-fold to ASCII ones
-                    "www\u0663", "xn--www-l6e", "\u017f", "www\u0967"]
+                    "www\u0663", "xn--www-l6e", "\u017f", "www\u0967",
+                    # an irrelevant word at the end of a label, right behind a non-ASCII letter (raw and as A-label)
+                    "boh\u00e8m", "\u00e9www", "\u00fcmobile", "caf\u00e9amp", "xn--bohm-7oa", "xn--www-9la"]
 
 INDEX_PAGES = ["index.html", "index.php", "index", "default.asp", "default.aspx", "index.htm", "Default.html".lower(), "index.HTML", "default.ASPX", "index."]
 INDEX_LOOKALIKES = ["indexes.html", "myindex.html", "index.html.bak", "Index.html", "defaults.php", "index-2.html"]
